@@ -2,11 +2,10 @@
 (* Exhaustive case analysis of Temporal: every shard list of length <= MaxLen over instants 0..MaxT with present or  *)
 (* absent bounds is one state.  The laws are invariants; every case is exported (CASE) with the verdict of each      *)
 (* component operator so that the harness can replay it into the three real components.                              *)
-EXTENDS Temporal, Integers, Json, TLC
+EXTENDS Temporal, TemporalFrames, Integers, Json, TLC
 
-CONSTANTS MaxT, MaxLen
+CONSTANTS MaxLen    \* MaxT, T == 0..MaxT and the frames: TemporalFrames
 
-T == 0..MaxT
 Lists == UNION {[1..n -> Intervals(T)] : n \in 0..MaxLen}
 
 VARIABLE c
@@ -25,38 +24,6 @@ ASSUME ~(\A t \in T, s \in Bounds(T), l \in Bounds(T) : CompletedAdmits(t, s, l,
 \* ... and a shard client that completes its intervals loses the last instant of an open-ended list
 ASSUME CompletedShardIndex(MaxT, <<Iv(NoBound, At(1)), Iv(At(1), NoBound)>>, 0, MaxT) = NoShard
        /\ ShardIndex(MaxT, <<Iv(NoBound, At(1)), Iv(At(1), NoBound)>>) = 2
-
-(* ---------- frames: where in the range of real instants the ticks are placed ---------- *)
-\* Only the order of the ticks enters the laws, so the verdicts of a case are the same wherever a strictly monotone
-\* map puts the ticks.  The components, however, compare real instants with real machinery (time.Time, protobuf
-\* Timestamps, ASN.1 UTCTime / GeneralizedTime, Unix seconds / nanoseconds), whose behaviour depends on WHERE the instants
-\* lie.  A frame names a landmark instant of that machinery and the ticks that are pinned to it in turn; the other ticks
-\* lie one unit apart on either side of the pinned one, as far as the range allows.  The harness holds the table
-\* landmark -> real instant and must realize every frame (it reports one counter per frame; the driver checks them).
-\*   pins     the ticks that are put on the landmark, one materialization each
-\*   boundMin the lowest tick a BOUND may use in this frame (a configuration cannot name instants before ConfFirst,
-\*            a certificate can carry them: in frame First tick 0 is an instant only, never a bound)
-Frame(at, pins, boundMin, why) == [at |-> at, pins |-> pins, boundMin |-> boundMin, why |-> why]
-Frames == <<
-  Frame("Mid",       T,      0, "an ordinary instant (2031)"),
-  Frame("First",     {0},    1, "0000-01-01T00:00:00Z, the earliest GeneralizedTime; the other ticks start at ConfFirst"),
-  Frame("ConfFirst", {0},    0, "0001-01-01T00:00:00Z, the earliest protobuf Timestamp and the zero time.Time"),
-  Frame("UTCFirst",  T,      0, "1950-01-01T00:00:00Z, the first instant encoded as UTCTime"),
-  Frame("Epoch",     T,      0, "1970-01-01T00:00:00Z, Unix time 0"),
-  Frame("Int32Last", T,      0, "2038-01-19T03:14:07Z, the last 32-bit Unix second"),
-  Frame("GenFirst",  T,      0, "2050-01-01T00:00:00Z, the first instant after the UTCTime years"),
-  Frame("NanoLast",  T,      0, "2262-04-11T23:47:16Z, the last whole second with a 64-bit nanosecond Unix time"),
-  Frame("Last",      T,      0, "9999-12-31T23:59:59Z, the last instant a certificate can carry (RFC 5280: no expiry); ticks above the pinned one are sub-second bounds, pin MaxT puts every other tick below")
->>
-\* the extremes of the representable range are materializations of the extreme ranks (CompletionGapIsTheLastInstant:
-\* the only place where a completed absent bound shows is t = MaxT on Last; symmetrically tick 0 on First / ConfFirst)
-ASSUME \A i \in 1..Len(Frames) : LET f == Frames[i] IN
-         /\ f.pins # {} /\ f.pins \subseteq T /\ f.boundMin \in 0..1
-         /\ (f.at = "Last" => MaxT \in f.pins)
-         /\ (f.at \in {"First", "ConfFirst"} => f.pins = {0})
-ASSUME \A i \in 1..Len(Frames) :
-         PrintT(<<"FRAME", ToJson([at |-> Frames[i].at, pins |-> Frames[i].pins, boundMin |-> Frames[i].boundMin,
-                                   top |-> MaxT])>>)
 
 Laws == /\ ConstructorIsWellFormed(c)
         /\ ConstructorAccepts(c) => /\ IndexIsWindow(c, T)
